@@ -82,3 +82,30 @@ def bv_binop(op, a, b, width):
     B = z3.Int2BV(to_int(b), width)
     r = {'and': A & B, 'or': A | B, 'xor': A ^ B}[op]
     return z3.BV2Int(r, False)
+
+
+def field_xor(a, t, s, w):
+    """a ^ (t * 2^s) for 0 <= t < 2^w: only the w-bit field of a at bit s changes;
+    the field XOR is written bit by bit in arithmetic (lemma field-xor)"""
+    _fired('field-xor-%d' % w)
+    a, t = to_int(a), to_int(t)
+    f = (a / (2 ** s)) % (2 ** w)
+    x = z3.IntVal(0)
+    for i in range(w):
+        fi = (f / (2 ** i)) % 2
+        ti = (t / (2 ** i)) % 2
+        x = x + ((fi + ti) % 2) * (2 ** i)
+    return a + (x - f) * (2 ** s)
+
+
+def field_and(a, t, s, w):
+    """a & (t * 2^s) for 0 <= t < 2^w: the w-bit field of a at bit s ANDed with t, shifted back"""
+    _fired('field-and-%d' % w)
+    a, t = to_int(a), to_int(t)
+    f = (a / (2 ** s)) % (2 ** w)
+    x = z3.IntVal(0)
+    for i in range(w):
+        fi = (f / (2 ** i)) % 2
+        ti = (t / (2 ** i)) % 2
+        x = x + z3.If(fi + ti == 2, 1, 0) * (2 ** i)
+    return x * (2 ** s)
